@@ -79,6 +79,7 @@ def h_split():
             a, b = res
             e.check('TicketType.split::ensures.amounts(l, r)', z3.And(Z(a.f['amount']) == l.e, Z(b.f['amount']) == r.e))
             e.check('TicketType.split::ensures.conservation', Z(a.f['amount']) + Z(b.f['amount']) == amount.e)
+            e.check('TicketType.split::ensures.result_type==ticket<content type>', z3.BoolVal(a.cls is t.cls and b.cls is t.cls))
             e.check('TicketType.split::ensures.same_ticketer_and_content',
                     z3.BoolVal(a.f['ticketer'] == ADDR_A and b.f['ticketer'] == ADDR_A and a.f['item'] == content('nat5')
                                and b.f['item'] == content('nat5')))
@@ -107,6 +108,7 @@ def h_join(case):
             return
         e.check(f'TicketType.join[{case}]::returns_ticket.only_if(ticketer and contents equal)', z3.BoolVal(match))
         e.check(f'TicketType.join[{case}]::ensures.amount==a+b', Z(res.f['amount']) == x.e + y.e if is_ticket(res) else z3.BoolVal(False))
+        e.check(f'TicketType.join[{case}]::ensures.result_type==ticket<content type>', z3.BoolVal(is_ticket(res) and res.cls is a.cls))
         e.check(f'TicketType.join[{case}]::ensures.same_ticketer_and_content',
                 z3.BoolVal(is_ticket(res) and res.f['ticketer'] == tk_a and res.f['item'] == content(ca)))
     return h
@@ -203,11 +205,46 @@ def h_split_instr():
     return h
 
 
+def h_join_instr(case):
+    from pytezos.michelson.instructions.ticket import JoinTicketsInstruction
+    T = _types()
+    tk_a, tk_b, ca, cb = case
+
+    def h(e: Engine):
+        x = e.int('amount_a', lo=1)
+        y = e.int('amount_b', lo=1)
+        a = ticket(tk_a, content(ca), x)
+        b = ticket(tk_b, content(cb), y)
+        below = T.StringType('below')
+        pair_cls = T.PairType.create_type(args=[a.cls, b.cls])
+        st = _stack([mk(pair_cls, items=(a, b)), below])
+        try:
+            e.call(e.unwrap(JoinTicketsInstruction.__dict__['execute'].__func__), [JoinTicketsInstruction, st, [], _Ctx()])
+        except RaiseEx as ex:
+            e.check(f'JOIN_TICKETS[{case}]::safety.no_exception[{type(ex.exc).__name__}]', z3.BoolVal(False))
+            return
+        ok = len(st.items) == 2 and st.items[1] is below and opt_item(st.items[0])[0]
+        e.check(f'JOIN_TICKETS[{case}]::ensures.stack_shape(option on top, rest untouched)', z3.BoolVal(bool(ok)))
+        if not ok:
+            return
+        item = opt_item(st.items[0])[1]
+        match = tk_a == tk_b and ca == cb
+        if item is None:
+            e.check(f'JOIN_TICKETS[{case}]::returns_None.only_if(ticketer or contents differ)', z3.BoolVal(not match))
+        else:
+            e.check(f'JOIN_TICKETS[{case}]::returns_Some.only_if(ticketer and contents equal)', z3.BoolVal(match))
+            e.check(f'JOIN_TICKETS[{case}]::ensures.ticket(amount a+b, same type)',
+                    z3.And(z3.BoolVal(is_ticket(item) and item.cls is a.cls), Z(item.f['amount']) == x.e + y.e) if is_ticket(item) else z3.BoolVal(False))
+    return h
+
+
 JOIN_CASES = [(ADDR_A, ADDR_A, 'nat5', 'nat5'), (ADDR_A, ADDR_B, 'nat5', 'nat5'), (ADDR_A, ADDR_A, 'nat5', 'nat6'),
               (ADDR_A, ADDR_B, 'nat5', 'nat6'), (ADDR_A, ADDR_A, 'pair', 'pair'), (ADDR_A, ADDR_A, 'nat5', 'str')]
 
 
 def job(kind, arg=None):
+    if kind == 'join_instr':
+        return h_join_instr(arg)
     return {'split': h_split, 'ticket': h_ticket_instr, 'split_instr': h_split_instr}[kind]() if kind != 'join' else h_join(arg)
 
 
@@ -254,6 +291,7 @@ def run_P(ck):
     jobs = [('split', 'props.C20_P:job', ('split',), None), ('ticket', 'props.C20_P:job', ('ticket',), None),
             ('split_instr', 'props.C20_P:job', ('split_instr',), None)]
     jobs += [(f'join{c}', 'props.C20_P:job', ('join', c), None) for c in JOIN_CASES]
+    jobs += [(f'join_instr{c}', 'props.C20_P:job', ('join_instr', c), None) for c in JOIN_CASES[:5]]
     for res in run_jobs(jobs):
         if 'error' in res:
             raise RuntimeError(f"harness {res['label']} crashed:\n{res['error']}")
